@@ -45,6 +45,7 @@ inline void fillOptions(Req& r, unsigned archFlag) {
 	r.ctx.badUtf = c.geti("badutf", 0) != 0;
 	r.ctx.badEnum = c.geti("badenum", 0) != 0;
 	r.ctx.ragged = c.geti("ragged", 0) != 0;
+	r.ctx.padLen = long(c.geti("padlen", -1));
 }
 
 struct Outcome {
@@ -256,7 +257,7 @@ template <class TArchive, class T> void reg(Registry& r, const char* arch, const
 	X(scalars, mz::Scalars) X(chrono, mz::Chrono) X(containers, mz::Containers) X(maps, mz::Maps) X(wrappers, mz::Wrappers) X(derived, mz::Derived) X(dyn, mz::DynNode) X(inner, mz::Inner) \
 	X(m_str_i32, std::map<std::string, int32_t>) X(m_str_str, std::map<std::string, std::string>) X(um_str_f64, std::unordered_map<std::string, double>) X(m_wstr_inner, std::map<std::wstring, mz::Inner>) \
 	X(pair_is, std::pair<int32_t, std::string>)
-#define DOC_OBJECTS_B(X) X(zoo, mz::Zoo) X(flaky, mz::FlakyHolder)
+#define DOC_OBJECTS_B(X) X(zoo, mz::Zoo) X(flaky, mz::FlakyHolder) X(padded, mz::Padded) X(v_padded, std::vector<mz::Padded>)
 #define DOC_TYPED_KEY_MAPS(X) \
 	X(m_i64_str, std::map<int64_t, std::string>) X(m_u8_i32, std::map<uint8_t, int32_t>) X(m_f64_i32, std::map<double, int32_t>) X(m_f32_i32, std::map<float, int32_t>) X(m_tps_i32, std::map<mz::tp_s, int32_t>) \
 	X(m_durms_str, std::map<std::chrono::milliseconds, std::string>) X(m_enum_i32, std::map<mz::Color, int32_t>) X(m_bool_i32, std::map<bool, int32_t>)
